@@ -37,7 +37,7 @@ var c19JoseClaimKeys = []string{"iss", "sub", "aud", "exp", "nbf", "iat", "jti",
 
 func c19JoseGen(t *rapid.T) c19JoseCase {
 	c := c19JoseCase{
-		Header:  c19x.GenPlan(t, c19JoseHeaderKeys),
+		Header:  c19OptHeaderPlan(t, c19JoseHeaderKeys),
 		Claims:  c19x.GenPlan(t, c19JoseClaimKeys),
 		Payload: rapid.SampledFrom([]string{"claims", "claims", "claims", "claims", "notjson", "empty"}).Draw(t, "payload"),
 		Sig:     rapid.SampledFrom(c19x.SigModes).Draw(t, "sig"),
@@ -152,4 +152,13 @@ func TestVerifReplay_C19_JOSEBytes(t *testing.T) {
 	h.Replay(t, "C19", "FuzzVerif_C19_JOSEBytes", func(x *h.Ctx, raw json.RawMessage) {
 		c19JoseBody(x, string(h.FuzzInput(raw)), "key")
 	}, h.PanicIsViolation(), h.Deadline(10*time.Second))
+}
+
+// c19OptHeaderPlan mutates the JOSE header in one case out of three only: most header mutations die in the JOSE library,
+// the claims are what nuts-node code interprets.
+func c19OptHeaderPlan(t *rapid.T, keys []string) c19x.Plan {
+	if rapid.IntRange(0, 2).Draw(t, "header.mutated") != 0 {
+		return c19x.Plan{}
+	}
+	return c19x.GenPlan(t, keys)
 }
